@@ -82,7 +82,7 @@ def run(prop, tier, seed, ctx):
         ctx.violation("C08|%s|session|corpus" % names.get(str(clause), "error"),
                       "corpus session on %s: event %d (%s) rejected (%s): %s %s" % (
                           t["file"], pos, evn.get("f"), names.get(str(clause), clause), json.dumps(evn)[:200], t.get("error") or ""), t)
-    for mcfg in ("MUT_StaticSession_visitor_reused.cfg", "MUT_StaticSession_stale_failure.cfg"):
+    for mcfg in ("MUT_StaticSession_visitor_reused.cfg", "MUT_StaticSession_stale_failure.cfg", "MUT_StaticSession_steals_foreign_tree.cfg"):
         mres2 = tlc.run("StaticSession", mcfg, workers=2, timeout=300)
         if "HistoryIndependent" not in mres2.violated:
             raise MachineryError("mutant %s did not violate HistoryIndependent" % mcfg)
